@@ -66,11 +66,11 @@ pub fn run(args: &Args) {
         let draws: Vec<Vec<u8>> = draw_sizes(&db.config).into_iter().map(|n| rng.bytes(n)).collect();
         let mut o = CaseOutcome::default();
         // reference bytes
-        keepass::verif_hooks::script(draws.clone());
+        crate::hook::script(draws.clone());
         let mut full = Vec::new();
         let r0 = db.save(&mut full, key.clone());
-        let requested = keepass::verif_hooks::requested();
-        keepass::verif_hooks::unscript();
+        let requested = crate::hook::requested();
+        crate::hook::unscript();
         if r0.is_err() {
             o.violation = Some(format!("save into a Vec failed: {:?}", r0));
             o.input = "save-failed".into();
@@ -92,10 +92,10 @@ pub fn run(args: &Args) {
                 let off = match rng.below(6) { 0 => 0, 1 => len - 1, 2 => len, 3 => len + 5, 4 => hl + rng.below(70) as usize, _ => rng.below(len as u64 + 1) as usize };
                 sched.fail = Some((off, *rng.pick(&kinds)));
             }
-            keepass::verif_hooks::script(draws.clone());
+            crate::hook::script(draws.clone());
             let mut w = ScriptedWriter::new(&sched);
             let r = db.save(&mut w, key.clone());
-            keepass::verif_hooks::unscript();
+            crate::hook::unscript();
             let impl_s = save_class(&r, &w.recv);
             let input = format!("(c11 {} {} {})", pieces_s, sched.term_script(), sched.term_fail());
             let model_s = model.eval(&input);
